@@ -121,7 +121,7 @@ func Explore(cfg Config, expectBg bool, maxRuns int) (outs []Outcome, exhausted 
 	seen := map[string]bool{}
 	runs := 0
 	for len(stack) > 0 {
-		if runs >= maxRuns {
+		if runs >= maxRuns || slowFailures.Load() >= 3 {
 			return outs, false
 		}
 		nd := stack[len(stack)-1]
